@@ -312,6 +312,99 @@ theorem final_assoc_comm (op : α → α → α) (hassoc : ∀ x y z, op (op x y
     obtain ⟨q, _, rfl⟩ := hy
     exact binop_updates_commute op hassoc hcomm p.2 q.2 v
 
+/-! ## for_all callbacks that update the array they iterate -/
+
+theorem flatMap_append_perm {β γ : Type} (L : List β) (A B : β → List γ) :
+    (L.flatMap (fun x => A x ++ B x)).Perm (L.flatMap A ++ L.flatMap B) := by
+  induction L with
+  | nil => simp
+  | cons x xs ih =>
+    simp only [List.flatMap_cons, List.append_assoc]
+    refine (List.Perm.append_left _ ((List.Perm.append_left _ ih).trans ?_))
+    rw [← List.append_assoc, ← List.append_assoc]
+    exact List.Perm.append_right _ List.perm_append_comm
+
+theorem flatMap_perm_congr {β γ : Type} {L : List β} {f g : β → List γ} (h : ∀ x ∈ L, (f x).Perm (g x)) :
+    (L.flatMap f).Perm (L.flatMap g) := by
+  induction L with
+  | nil => exact List.Perm.refl _
+  | cons x xs ih =>
+    simp only [List.flatMap_cons]
+    exact (h x (by simp)).append (ih (fun y hy => h y (by simp [hy])))
+
+theorem flatMap_cons_perm {β γ : Type} (L : List β) (h : β → γ) (t : β → List γ) :
+    (L.flatMap (fun l => h l :: t l)).Perm (L.map h ++ L.flatMap t) := by
+  induction L with
+  | nil => simp
+  | cons x xs ih =>
+    simp only [List.flatMap_cons, List.map_cons, List.cons_append]
+    exact List.Perm.cons _ (((List.Perm.append_left _ ih)).trans (List.perm_append_comm_assoc _ _ _))
+
+/-- the callbacks' own modifications (through the reference), one per presented slot -/
+def directOf (a : Arr α) (cb : Callback α) : List (Msg α) :=
+  (List.range a.ranks).flatMap (fun r => (List.range (localSize a.len a.ranks r)).map (fun l =>
+    ({ idx := globalIndex a.len a.ranks r l, f := fun _ v => cb.direct r l (globalIndex a.len a.ranks r l) v } : Msg α)))
+
+/-- everything the callbacks emit -/
+def emittedOf (a : Arr α) (cb : Callback α) : List (Msg α) :=
+  (List.range a.ranks).flatMap (fun r => (List.range (localSize a.len a.ranks r)).flatMap (fun l =>
+    cb.emits r l (globalIndex a.len a.ranks r l)))
+
+/-- `for_all(cb)` = one own modification per element (each index `0..len-1` exactly once) plus the emitted
+updates — nothing else touches the array -/
+theorem forAllMsgs_split (a : Arr α) (cb : Callback α) (hr : 0 < a.ranks) :
+    (forAllMsgs a cb).Perm (directOf a cb ++ emittedOf a cb) ∧ (directOf a cb).map (·.idx) = List.range a.len := by
+  constructor
+  · unfold forAllMsgs directOf emittedOf
+    refine List.Perm.trans ?_ (flatMap_append_perm _ _ _)
+    apply flatMap_perm_congr
+    intro r _
+    exact flatMap_cons_perm _ _ _
+  · unfold directOf
+    rw [List.map_flatMap]
+    have : (List.range a.ranks).flatMap (fun r => ((List.range (localSize a.len a.ranks r)).map (fun l =>
+        ({ idx := globalIndex a.len a.ranks r l, f := fun _ v => cb.direct r l (globalIndex a.len a.ranks r l) v } : Msg α))).map (·.idx)) =
+        (List.range a.ranks).flatMap (indicesOf a.len a.ranks) := by
+      apply flatMap_congr'
+      intro r _
+      simp [indicesOf, List.map_map, Function.comp_def]
+    rw [this, flatMap_indicesOf, start_ranks _ _ hr]
+
+/-- **emitted updates are covered by the fold theorems**: whatever order the callbacks' own modifications and
+the updates they emit are executed in (inside the emitting callback, inside another callback, in the
+closing barrier), every element ends as the fold of exactly the updates addressed to it — own
+modification included, each exactly once — provided updates to one element commute -/
+theorem forAll_emit_is_fold {a a' : Arr α} {cb : Callback α} {ms' : List (Msg α)} (hr : 0 < a.ranks)
+    (hp : ms'.Perm (forAllMsgs a cb))
+    (hc : ∀ x ∈ forAllMsgs a cb, ∀ y ∈ forAllMsgs a cb, x.idx = y.idx → ∀ v, y.f y.idx (x.f x.idx v) = x.f x.idx (y.f y.idx v))
+    (h : run a ms' = some a') (i : Nat) (hi : i < a.len) :
+    get a' i = (get a i).map (fun v0 => (updatesOf (forAllMsgs a cb) i).foldl (fun v m => m.f i v) v0) := by
+  rw [final_is_fold hr h i hi]
+  congr 1
+  funext v0
+  apply List.Perm.foldl_eq' (hp.filter _)
+  intro x hx y hy z
+  simp only [List.mem_filter, beq_iff_eq] at hx hy
+  have := hc x (hp.mem_iff.mp hx.1) y (hp.mem_iff.mp hy.1) (by omega) z
+  rw [hx.2, hy.2] at this
+  exact this
+
+/-- a `for_all` whose callbacks emit only legal indices never traps, in any execution order -/
+theorem forAll_emit_some {a : Arr α} {cb : Callback α} {ms' : List (Msg α)} (hw : WF a) (hr : 0 < a.ranks)
+    (hp : ms'.Perm (forAllMsgs a cb)) (hl : ∀ m ∈ emittedOf a cb, m.idx < a.len) :
+    ∃ a', run a ms' = some a' ∧ WF a' := by
+  obtain ⟨hperm, hidx⟩ := forAllMsgs_split a cb hr
+  have hall : ∀ m ∈ ms', m.idx < a.len := by
+    intro m hm
+    have := (hperm.mem_iff.mp (hp.mem_iff.mp hm))
+    rcases List.mem_append.mp this with h1 | h1
+    · have : m.idx ∈ (directOf a cb).map (·.idx) := List.mem_map_of_mem h1
+      rw [hidx] at this
+      exact List.mem_range.mp this
+    · exact hl m h1
+  obtain ⟨a', h1, h2, _, _⟩ := run_some ms' hw hr hall
+  exact ⟨a', h1, h2⟩
+
 /-! ## the concrete operators of array.hpp on `uint64_t` -/
 
 /-- families of operations whose updates commute with each other: additive (plus, minus, increment,
@@ -333,6 +426,26 @@ theorem Op.eval_comm (x y : Op) (i j : Nat) (v : UInt64) (hf : x.family = y.fami
     | grind
     | (simp only [UInt64.and_assoc, UInt64.or_assoc, UInt64.xor_assoc]; congr 1; first | exact UInt64.and_comm _ _ | exact UInt64.or_comm _ _ | exact UInt64.xor_comm _ _)
     | (simp only [b2u_ne_zero, Bool.and_assoc, Bool.or_assoc]; congr 2; first | exact Bool.and_comm _ _ | exact Bool.or_comm _ _)
+
+/-- the updates of the harness' emitting callback (own modification and emitted ones) all belong to one
+operator family, hence commute: `forAll_emit_is_fold` applies to the `E` scripts of the check -/
+theorem harnessCallback_commutes (a : Arr UInt64) (mk : UInt64 → Op) (fam : Nat) (hf : ∀ x, (mk x).family = some fam)
+    (c salt k : Nat) :
+    ∀ x ∈ forAllMsgs a (harnessCallback a.len mk c salt k), ∀ y ∈ forAllMsgs a (harnessCallback a.len mk c salt k),
+      ∀ v, y.f y.idx (x.f x.idx v) = x.f x.idx (y.f y.idx v) := by
+  have key : ∀ m ∈ forAllMsgs a (harnessCallback a.len mk c salt k), ∃ u i', ∀ v, m.f m.idx v = (mk u).eval i' v := by
+    intro m hm
+    simp only [forAllMsgs, harnessCallback, List.mem_flatMap, List.mem_range, List.mem_cons] at hm
+    obtain ⟨r, _, l, _, hm⟩ := hm
+    rcases hm with rfl | ⟨j, _, hm⟩
+    · exact ⟨_, _, fun v => rfl⟩
+    · simp only [List.mem_cons, List.not_mem_nil, or_false] at hm
+      rcases hm with rfl | rfl | rfl <;> exact ⟨_, _, fun v => rfl⟩
+  intro x hx y hy v
+  obtain ⟨u1, i1, h1⟩ := key x hx
+  obtain ⟨u2, i2, h2⟩ := key y hy
+  rw [h1, h2, h2, h1]
+  exact Op.eval_comm (mk u1) (mk u2) i1 i2 v (by rw [hf, hf]) (by rw [hf]; simp)
 
 /-! ## for_all and copies -/
 
